@@ -209,3 +209,23 @@ Definition chk_partial_load (F : chunked) (sel : list string) (Pt : chunked) : l
     lcol_eqb (spec_select_fields (abs F) sel) (abs Pt);
     wf_b Pt;
     wf_b F ].
+
+(* ---------- C07: which layer a query belongs to (Preflight.v) ---------- *)
+From NP Require Import Preflight.
+Definition qroute_eqb (a b : qroute) : bool :=
+  match a, b with QBase, QBase => true | QRefuse, QRefuse => true | QNest x, QNest y => x =? y | _, _ => false end.
+
+(* ---------- C10: count_nested(by=...) (CountBy.v) ---------- *)
+From NP Require Import CountBy.
+(* obs: the count columns of the real result as (value heading the column, cells per row; None = NaN).  The column
+   ORDER is by rendered name: compared per value. *)
+Definition count_cells_eqb : list (option nat) -> list (option nat) -> bool := list_eqb (option_eqb Nat.eqb).
+Definition chk_count_by (rows : list nrow) (k : nat) (obs : list (val * list (option nat))) : list bool :=
+  let '(cats, cells) := m_count_by rows k in
+  let col_of (j : nat) := map (fun r => nth j r None) cells in
+  [ (length obs =? length cats) &&
+    forallb (fun o => match find (fun jc => val_eqb (fst o) (snd jc)) (combine (seq 0 (length cats)) cats) with
+                      | Some jc => count_cells_eqb (col_of (fst jc)) (snd o)
+                      | None => false end) obs;
+    forallb (fun o => count_cells_eqb (map (fun i => spec_count_cell rows k i (fst o)) (seq 0 (length rows))) (snd o)) obs;
+    true; true ].
